@@ -1,7 +1,6 @@
 /-
-CSE bookkeeping invariant of `SchedCore` (C06, C05): an opted-in call is handed to an executor at most once
-per cache key; after that it is either registered as pending or recorded for the same-execution lookup.
-Main result: `reachable_cse`.
+CSE bookkeeping invariant of `SchedCore` (C06, C05) and dry-run lemmas (C28).
+Main results: `reachable_cse`, `reachable_dry`, `dry_real_lockstep`.
 -/
 import RedunModel.Lemmas.SchedCore
 namespace RedunModel.SchedCore
@@ -33,10 +32,11 @@ structure Same (s s' : S) : Prop where
   pj : s'.pendingJobs = s.pendingJobs
   cse : s'.cse = s.cse
   sub : s'.submits = s.submits
+  infl : s'.inflight = s.inflight
 
-theorem Same.refl (s : S) : Same s s := ⟨rfl, rfl, rfl, rfl, rfl⟩
+theorem Same.refl (s : S) : Same s s := ⟨rfl, rfl, rfl, rfl, rfl, rfl⟩
 theorem Same.trans {a b c : S} (h1 : Same a b) (h2 : Same b c) : Same a c :=
-  ⟨h2.next.trans h1.next, h2.specOf.trans h1.specOf, h2.pj.trans h1.pj, h2.cse.trans h1.cse, h2.sub.trans h1.sub⟩
+  ⟨h2.next.trans h1.next, h2.specOf.trans h1.specOf, h2.pj.trans h1.pj, h2.cse.trans h1.cse, h2.sub.trans h1.sub, h2.infl.trans h1.infl⟩
 
 theorem same_spec {p : Prog} {s s' : S} (h : s'.specOf = s.specOf) (j : JobId) : spec p s' j = spec p s j := by
   unfold spec; rw [h]
@@ -56,11 +56,11 @@ theorem Same.inv {p : Prog} {s s' : S} (h : Same s s') (hi : CseInv p s) : CseIn
     · exact Or.inl a
     · exact Or.inr ⟨e, by rw [h.cse]; exact he, a⟩
 
-theorem same_setJob (s : S) (j : JobId) (f : JobSt → JobSt) : Same s (setJob s j f) := ⟨rfl, rfl, rfl, rfl, rfl⟩
-theorem same_enqueue (s : S) (e : Ev) : Same s (enqueue s e) := ⟨rfl, rfl, rfl, rfl, rfl⟩
-theorem same_checkPending (p : Prog) (s : S) : Same s (checkPending p s) := ⟨rfl, rfl, rfl, rfl, rfl⟩
-theorem same_consume (p : Prog) (s : S) (j : JobId) : Same s (consume p s j) := ⟨rfl, rfl, rfl, rfl, rfl⟩
-theorem same_release (p : Prog) (s : S) (j : JobId) : Same s (release p s j) := ⟨rfl, rfl, rfl, rfl, rfl⟩
+theorem same_setJob (s : S) (j : JobId) (f : JobSt → JobSt) : Same s (setJob s j f) := ⟨rfl, rfl, rfl, rfl, rfl, rfl⟩
+theorem same_enqueue (s : S) (e : Ev) : Same s (enqueue s e) := ⟨rfl, rfl, rfl, rfl, rfl, rfl⟩
+theorem same_checkPending (p : Prog) (s : S) : Same s (checkPending p s) := ⟨rfl, rfl, rfl, rfl, rfl, rfl⟩
+theorem same_consume (p : Prog) (s : S) (j : JobId) : Same s (consume p s j) := ⟨rfl, rfl, rfl, rfl, rfl, rfl⟩
+theorem same_release (p : Prog) (s : S) (j : JobId) : Same s (release p s j) := ⟨rfl, rfl, rfl, rfl, rfl, rfl⟩
 
 theorem same_releaseIf (p : Prog) (s : S) (j : JobId) : Same s (releaseIf p s j) := by
   unfold releaseIf; split
@@ -69,14 +69,14 @@ theorem same_releaseIf (p : Prog) (s : S) (j : JobId) : Same s (releaseIf p s j)
 
 theorem same_notifyParentResolved (s : S) (j : JobId) : Same s (notifyParentResolved s j) := by
   unfold notifyParentResolved; split
-  · exact ⟨rfl, rfl, rfl, rfl, rfl⟩
+  · exact ⟨rfl, rfl, rfl, rfl, rfl, rfl⟩
   · dsimp only; split
     · exact (same_setJob _ _ _).trans (same_enqueue _ _)
     · exact same_setJob _ _ _
 
 theorem same_notifyParentRejected (s : S) (j : JobId) : Same s (notifyParentRejected s j) := by
   unfold notifyParentRejected; split
-  · exact ⟨rfl, rfl, rfl, rfl, rfl⟩
+  · exact ⟨rfl, rfl, rfl, rfl, rfl, rfl⟩
   · split
     · exact Same.refl s
     · exact (same_setJob _ _ _).trans (same_enqueue _ _)
@@ -307,7 +307,7 @@ theorem doneJob_cse (p : Prog) (s : S) (j : JobId) (f : Bool) (hi : CseInv p s) 
   have e1 : Same s1 (if (!(s1.jobs j).wasCached && (spec p s1 j).prov) = true then
       { s1 with evalTable := (spec p s1 j).key :: s1.evalTable } else s1) := by
     split
-    · exact ⟨rfl, rfl, rfl, rfl, rfl⟩
+    · exact ⟨rfl, rfl, rfl, rfl, rfl, rfl⟩
     · exact Same.refl s1
   have i2 := e1.inv i1
   dsimp only
@@ -317,8 +317,8 @@ theorem doneJob_cse (p : Prog) (s : S) (j : JobId) (f : Bool) (hi : CseInv p s) 
 
 theorem complete_cse (p : Prog) (s : S) (j : JobId) (hi : CseInv p s) : CseInv p (complete p s j) := by
   unfold complete
-  have e1 : Same s { s with inflight := fun i => if i = j then false else s.inflight i } := ⟨rfl, rfl, rfl, rfl, rfl⟩
-  exact (same_enqueue _ _).inv (e1.inv hi)
+  have g1 : Grow s { s with inflight := fun i => if i = j then false else s.inflight i } := ⟨rfl, rfl, rfl, rfl, fun _ h => h⟩
+  exact (same_enqueue _ _).inv (g1.inv hi)
 
 /-! ## part 3 -/
 
@@ -374,7 +374,7 @@ theorem execJob_cse (p : Prog) (hps : ProvScope p) (s : S) (j : JobId) (hi : Cse
     · exact (((same_setJob _ _ _).trans (same_checkPending p _)).trans (same_enqueue _ _)).inv hi
     · rename_i hmiss
       split
-      · exact (Same.mk rfl rfl rfl rfl rfl : Same s { s with pendingLimits := s.pendingLimits ++ [j] }).inv hi
+      · exact (Same.mk rfl rfl rfl rfl rfl rfl : Same s { s with pendingLimits := s.pendingLimits ++ [j] }).inv hi
       · have e0 : Same s (if p.dryrun = true then s else consume p s j) := by
           split
           · exact Same.refl s
@@ -521,7 +521,7 @@ theorem execJob_cse (p : Prog) (hps : ProvScope p) (s : S) (j : JobId) (hi : Cse
 
 /-! ## part 4 -/
 
-theorem same_tl (s : S) : Same s (tl s) := ⟨rfl, rfl, rfl, rfl, rfl⟩
+theorem same_tl (s : S) : Same s (tl s) := ⟨rfl, rfl, rfl, rfl, rfl, rfl⟩
 
 theorem pop_cse (p : Prog) (hps : ProvScope p) (s : S) (hinv : Inv p s) (hi : CseInv p s) : CseInv p (pop p s) := by
   unfold pop
@@ -551,5 +551,220 @@ theorem reachable_cse (p : Prog) (hps : ProvScope p) (s : S) (h : Reachable p s)
     cases hs with
     | pop _ _ => exact pop_cse p hps _ (reachable_inv p _ hr) ih
     | complete j _ _ => exact complete_cse p _ j ih
+
+/-! ## part 5 -/
+
+/-! # Dry runs submit nothing (C28) -/
+
+structure Keep (s s' : S) : Prop where
+  sub : s'.submits = s.submits
+  infl : s'.inflight = s.inflight
+
+theorem Keep.refl (s : S) : Keep s s := ⟨rfl, rfl⟩
+theorem Keep.trans {a b c : S} (h1 : Keep a b) (h2 : Keep b c) : Keep a c := ⟨h2.sub.trans h1.sub, h2.infl.trans h1.infl⟩
+theorem Keep.ofSame {s s' : S} (h : Same s s') : Keep s s' := ⟨h.sub, h.infl⟩
+
+theorem keep_record (p : Prog) (s : S) (j : JobId) (b : Bool) : Keep s (record p s j b) := by
+  unfold record; dsimp only; split <;> exact ⟨rfl, rfl⟩
+theorem keep_finalize (p : Prog) (s : S) (j : JobId) : Keep s (finalize p s j) := by
+  unfold finalize; dsimp only; split <;> exact ⟨rfl, rfl⟩
+
+theorem keep_foldl {α : Type} (f : S → α → S) (h : ∀ s a, Keep s (f s a)) (l : List α) (s : S) :
+    Keep s (l.foldl f s) := by
+  induction l generalizing s with
+  | nil => exact Keep.refl s
+  | cons a l ih => exact (h s a).trans (ih (f s a))
+
+theorem keep_rejectTwin (p : Prog) (s : S) (t : JobId) : Keep s (rejectTwin p s t) := by
+  unfold rejectTwin
+  exact ((((Keep.ofSame (same_setJob _ _ _)).trans (keep_record p _ t true)).trans (Keep.ofSame (same_setJob _ _ _))).trans
+    (Keep.ofSame (same_notifyParentRejected _ _))).trans (keep_finalize p _ t)
+
+theorem keep_twinsDone (l : List JobId) (s : S) :
+    Keep s (l.foldl (fun s t => enqueue (setJob s t fun js => { js with wasCached := true }) (Ev.done t true)) s) :=
+  keep_foldl _ (fun s t => Keep.ofSame ((same_setJob s t _).trans (same_enqueue _ _))) l s
+
+theorem keep_resolveJob (p : Prog) (s : S) (j : JobId) : Keep s (resolveJob p s j) := by
+  unfold resolveJob
+  have e1 := (keep_record p s j false).trans (Keep.ofSame (same_setJob _ j (fun js => { js with status := .resolved })))
+  have e2 := e1.trans (Keep.ofSame (same_notifyParentResolved _ j))
+  exact (e2.trans (keep_twinsDone _ _)).trans (keep_finalize p _ j)
+
+theorem keep_rejectJob (p : Prog) (s : S) (j : JobId) : Keep s (rejectJob p s j) := by
+  rw [rejectJob_eq]
+  unfold rejectRest
+  have e0 := Keep.ofSame (same_releaseIf p s j)
+  have e1 := (e0.trans (keep_record p _ j true)).trans (Keep.ofSame (same_setJob _ j (fun js => { js with status := .rejected })))
+  have e2 := e1.trans (Keep.ofSame (same_notifyParentRejected _ j))
+  exact (e2.trans (keep_foldl (rejectTwin p) (keep_rejectTwin p) _ _)).trans (keep_finalize p _ j)
+
+theorem keep_spawnOne (s : S) (j : JobId) (c : SpecId) : Keep s (spawnOne s j c) := ⟨rfl, rfl⟩
+
+theorem keep_spawn (s : S) (j : JobId) (cs : List SpecId) : Keep s (spawn s j cs) := by
+  unfold spawn
+  have e1 := keep_foldl (fun s c => spawnOne s j c) (fun s c => keep_spawnOne s j c) cs s
+  dsimp only
+  split
+  · exact (e1.trans (Keep.ofSame (same_setJob _ _ _))).trans (Keep.ofSame (same_enqueue _ _))
+  · exact e1.trans (Keep.ofSame (same_setJob _ _ _))
+
+theorem keep_doneJob (p : Prog) (s : S) (j : JobId) (f : Bool) : Keep s (doneJob p s j f) := by
+  rw [doneJob_eq]
+  have e0 := Keep.ofSame (same_releaseIf p s j)
+  generalize releaseIf p s j = s1 at e0
+  unfold doneRest
+  have e1 : Keep s1 (if (!(s1.jobs j).wasCached && (spec p s1 j).prov) = true then
+      { s1 with evalTable := (spec p s1 j).key :: s1.evalTable } else s1) := by
+    split
+    · exact ⟨rfl, rfl⟩
+    · exact Keep.refl s1
+  dsimp only
+  split
+  · exact (e0.trans e1).trans (Keep.ofSame (same_enqueue _ _))
+  · exact (e0.trans e1).trans (keep_spawn _ j _)
+
+/-- in a dry run `_exec_job_main_thread` never reaches `executor.submit` -/
+theorem keep_execJob_dry (p : Prog) (hd : p.dryrun = true) (s : S) (j : JobId) : Keep s (execJob p s j) := by
+  unfold execJob
+  dsimp only
+  split
+  · exact Keep.ofSame ((same_setJob _ _ _).trans (same_checkPending p _))
+  · split
+    · exact Keep.ofSame (((same_setJob _ _ _).trans (same_checkPending p _)).trans (same_enqueue _ _))
+    · exact Keep.ofSame (((same_setJob _ _ _).trans (same_checkPending p _)).trans (same_enqueue _ _))
+    · exact Keep.ofSame (((same_setJob _ _ _).trans (same_checkPending p _)).trans (same_enqueue _ _))
+    · simp only [hd, Bool.not_true, Bool.false_and, Bool.false_eq_true, if_false, if_true]
+      split
+      · exact Keep.ofSame (same_enqueue _ _)
+      · exact Keep.refl s
+
+structure DryInv (s : S) : Prop where
+  sub : s.submits = []
+  infl : ∀ j, s.inflight j = false
+
+theorem Keep.dry {s s' : S} (h : Keep s s') (hi : DryInv s) : DryInv s' :=
+  ⟨by rw [h.sub]; exact hi.sub, fun j => by rw [h.infl]; exact hi.infl j⟩
+
+theorem pop_dry (p : Prog) (hd : p.dryrun = true) (s : S) (ih : DryInv s) : DryInv (pop p s) := by
+  unfold pop
+  split
+  · exact ih
+  · rename_i e rest hq
+    have k0 : Keep s { s with queue := rest } := ⟨rfl, rfl⟩
+    cases e with
+    | exec j => exact (k0.trans (keep_execJob_dry p hd _ j)).dry ih
+    | resolve j => exact (k0.trans (keep_resolveJob p _ j)).dry ih
+    | done j f => exact (k0.trans (keep_doneJob p _ j f)).dry ih
+    | reject j => exact (k0.trans (keep_rejectJob p _ j)).dry ih
+
+theorem reachable_dry (p : Prog) (hd : p.dryrun = true) (s : S) (h : Reachable p s) : DryInv s := by
+  induction h with
+  | init => exact ⟨rfl, fun _ => rfl⟩
+  | step hr hs ih =>
+    cases hs with
+    | pop _ _ => exact pop_dry p hd _ ih
+    | complete j _ hi => rw [ih.infl j] at hi; exact absurd hi (by simp)
+
+/-! ## part 6 -/
+
+/-! # dry run vs real run: identical steps while every job hits the cache -/
+
+def asDry (p : Prog) : Prog := { p with dryrun := true }
+
+theorem spec_asDry (p : Prog) (s : S) (j : JobId) : spec (asDry p) s j = spec p s j := rfl
+theorem release_asDry (p : Prog) (s : S) (j : JobId) : release (asDry p) s j = release p s j := rfl
+theorem record_asDry (p : Prog) (s : S) (j : JobId) (b : Bool) : record (asDry p) s j b = record p s j b := rfl
+theorem finalize_asDry (p : Prog) (s : S) (j : JobId) : finalize (asDry p) s j = finalize p s j := rfl
+theorem rejectTwin_asDry (p : Prog) : rejectTwin (asDry p) = rejectTwin p := rfl
+
+theorem scanPending_asDry (p : Prog) (sp : JobId → SpecId) (used : Res → Int) (l : List JobId) (keys : List Res)
+    (acc : Res → Nat) : scanPending (asDry p) sp used l keys acc = scanPending p sp used l keys acc := by
+  induction l generalizing keys acc with
+  | nil => rfl
+  | cons a l ih =>
+    simp only [scanPending]
+    have hw : ∀ k f, within (asDry p) used k f = within p used k f := fun _ _ => rfl
+    have hs : ∀ i, (asDry p).specAt i = p.specAt i := fun _ => rfl
+    simp only [hw, hs, ih]
+
+theorem checkPending_asDry (p : Prog) (s : S) : checkPending (asDry p) s = checkPending p s := by
+  unfold checkPending; rw [scanPending_asDry]
+
+theorem doneJob_asDry (p : Prog) (s : S) (j : JobId) (f : Bool) : doneJob (asDry p) s j f = doneJob p s j f := by
+  unfold doneJob
+  simp only [release_asDry, checkPending_asDry, spec_asDry]
+
+theorem rejectJob_asDry (p : Prog) (s : S) (j : JobId) : rejectJob (asDry p) s j = rejectJob p s j := by
+  unfold rejectJob
+  simp only [release_asDry, checkPending_asDry, record_asDry, finalize_asDry, rejectTwin_asDry]
+
+theorem resolveJob_asDry (p : Prog) (s : S) (j : JobId) : resolveJob (asDry p) s j = resolveJob p s j := rfl
+
+/-- the head of the queue is an execution that misses both the pending-twin table and the cache -/
+def missAtHead (p : Prog) (s : S) : Bool :=
+  match s.queue with
+  | Ev.exec j :: _ =>
+    let sp := spec p s j
+    (if optedIn sp then lookupPending s (sp.key, sp.ctx) else none).isNone &&
+      (cacheLookup s sp == Hit.miss)
+  | _ => false
+
+theorem execJob_asDry (p : Prog) (s : S) (j : JobId)
+    (h : ((if optedIn (spec p s j) then lookupPending s ((spec p s j).key, (spec p s j).ctx) else none).isNone &&
+      (cacheLookup s (spec p s j) == Hit.miss)) = false) :
+    execJob (asDry p) s j = execJob p s j := by
+  unfold execJob
+  have hs : spec (asDry p) s j = spec p s j := rfl
+  rw [hs]
+  dsimp only
+  cases h1 : (if optedIn (spec p s j) = true then lookupPending s ((spec p s j).key, (spec p s j).ctx) else none) with
+  | some t => simp only [checkPending_asDry]
+  | none =>
+    rw [h1] at h
+    simp only [Option.isNone_none, Bool.true_and, beq_eq_false_iff_ne, ne_eq] at h
+    dsimp only
+    cases h2 : cacheLookup s (spec p s j) with
+    | miss => exact absurd h2 h
+    | cse e => simp only [checkPending_asDry]
+    | ultimate => simp only [checkPending_asDry]
+    | single => simp only [checkPending_asDry]
+
+theorem pop_asDry (p : Prog) (s : S) (h : missAtHead p s = false) : pop (asDry p) s = pop p s := by
+  unfold pop
+  cases hq : s.queue with
+  | nil => rfl
+  | cons e rest =>
+    dsimp only
+    cases e with
+    | exec j =>
+      unfold missAtHead at h
+      rw [hq] at h
+      have hspec : ∀ s' : S, s'.specOf = s.specOf → spec p s' j = spec p s j := fun s' e => by unfold spec; rw [e]
+      exact execJob_asDry p { s with queue := rest } j h
+    | done j f => exact doneJob_asDry p _ j f
+    | reject j => exact rejectJob_asDry p _ j
+    | resolve j => rfl
+
+def popN (p : Prog) : Nat → S → S
+  | 0, s => s
+  | n + 1, s => popN p n (pop p s)
+
+/-- If in the first `n` events of the dry run no job misses the cache, the real run processes the same
+`n` events through exactly the same states. -/
+theorem dry_real_lockstep (p : Prog) (n : Nat) (s : S)
+    (h : ∀ k, k < n → missAtHead p (popN (asDry p) k s) = false) :
+    popN p n s = popN (asDry p) n s := by
+  induction n generalizing s with
+  | zero => rfl
+  | succ n ih =>
+    have h0 := h 0 (Nat.zero_lt_succ n)
+    simp only [popN] at h0 ⊢
+    rw [pop_asDry p s h0]
+    apply ih
+    intro k hk
+    have := h (k + 1) (Nat.succ_lt_succ hk)
+    simp only [popN] at this
+    rw [pop_asDry p s h0] at this
+    exact this
 
 end RedunModel.SchedCore
